@@ -105,6 +105,26 @@ func (s *c34Stream) produced() []byte {
 	return bytes.Join(s.actual, nil)
 }
 
+// c34WT is a stream that opts into WriteTo framing (fasthttp.BodyWriterTo): every scripted part is handed over in ONE
+// Write call, like *bytes.Reader / *bytes.Buffer hand over their whole content.
+type c34WT struct{ *c34Stream }
+
+func (s c34WT) SupportsBodyWriteTo() bool { return true }
+func (s c34WT) WriteTo(w io.Writer) (int64, error) {
+	var total int64
+	for s.pi < len(s.parts) {
+		p := s.parts[s.pi]
+		s.pi++
+		s.actual = append(s.actual, append([]byte(nil), p...))
+		n, err := w.Write(p)
+		total += int64(n)
+		if err != nil {
+			return total, err
+		}
+	}
+	return total, nil
+}
+
 // c34NoCloser hides Close (a stream that is not an io.Closer).
 type c34NoCloser struct{ s *c34Stream }
 
@@ -236,6 +256,9 @@ func c34Chunk(kind string, a [][]byte) *Case {
 	case 'e':
 		is = &c34Stream{parts: parts, eofJoined: true}
 		stream = is
+	case 'T': // BodyWriterTo: framed through WriteTo, one Write per part
+		is = &c34Stream{parts: parts}
+		stream = c34WT{is}
 	case 'c': // Close returns an error
 		is = &c34Stream{parts: parts, closeErr: true}
 		stream = is
@@ -288,7 +311,12 @@ func c34Chunk(kind string, a [][]byte) *Case {
 			nonEmpty++
 		}
 	}
-	return &Case{Lines: []string{Line("chunkenc", modelReads...), Line("chunkdec", c34HexM(), B("0"), raw)}, Impl: impl,
+	lines := []string{Line("chunkenc", modelReads...), Line("chunkdec", c34HexM(), B("0"), raw)}
+	if len(want) > 70000 {
+		lines = nil // very large bodies: monitors only (the driver lines would be megabytes of hex)
+		impl = fmt.Sprintf("werr=%v raw=%d bytes closes=%d/%d", werr, len(raw), closesAfterWrite, closesEnd)
+	}
+	return &Case{Lines: lines, Impl: impl,
 		Nontrivial: nonEmpty >= 2, Tags: []string{"chunk-" + string(obj) + string(mode)},
 		Judge: func(r []string) Verdict {
 			if werr != nil {
@@ -309,7 +337,7 @@ func c34Chunk(kind string, a [][]byte) *Case {
 			if is != nil && mode != 'n' && (closesAfterWrite != 1 || closesEnd != 1) {
 				return Verdict{VSpec, "close-count", fmt.Sprintf("stream closed %d times after Write, %d after release (want 1, 1)", closesAfterWrite, closesEnd)}
 			}
-			if r[0] == "no-driver" {
+			if len(r) < 2 || r[0] == "no-driver" {
 				return Ok()
 			}
 			if H(raw) != H(append(unhexOr(r[0]), '\r', '\n')) {
@@ -1179,9 +1207,29 @@ func init() {
 				return parts
 			}
 			objs := []byte("RQ")
-			modes := []byte("rrrrenbBccwW")
+			modes := []byte("rrrrenbBccwWTT")
 			for i := 0; i < n; i++ {
 				emit("chunk", append([][]byte{{objs[r.Intn(2)]}, {modes[r.Intn(len(modes))]}}, genParts(8)...)...)
+			}
+			// bodies framed through WriteTo (bytes.Reader, bytes.Buffer, BodyWriterTo) arrive in ONE write of any size:
+			// powers of two and multiples of 32 KiB with their neighbours, as one write and as two
+			var wtSizes []int
+			for p := 10; p <= 16; p++ {
+				wtSizes = append(wtSizes, 1<<p-1, 1<<p, 1<<p+1)
+			}
+			for _, k := range []int{3, 4, 5, 8} {
+				wtSizes = append(wtSizes, k*32768-1, k*32768, k*32768+1)
+			}
+			if tier == "thorough" {
+				for k := 9; k <= 16; k++ {
+					wtSizes = append(wtSizes, k*32768-1, k*32768, k*32768+1)
+				}
+			}
+			for i, sz := range wtSizes {
+				body := r.Bytes(sz, []byte("wxyz\r\n0"))
+				emit("chunk", []byte{objs[i%2]}, []byte{[]byte("bBT")[i%3]}, body)
+				emit("chunk", []byte{objs[(i+1)%2]}, []byte{[]byte("TbB")[i%3]}, body)
+				emit("chunk", []byte{objs[i%2]}, []byte{'T'}, body[:sz/2], body[sz/2:])
 			}
 			// fixed: declared equal / shorter / longer
 			for i := 0; i < n/2; i++ {
